@@ -8,7 +8,7 @@ from fractions import Fraction
 import numpy as np
 import pandas as pd
 
-from ..common import Driver, log
+from ..common import to_frac, Driver, log
 from ..rowops import decode_vals, impl_rolling, roll_requests
 
 BIG = 2**60
@@ -143,7 +143,7 @@ def run(res, tier="quick", seed=0, widen=False):
             res.violations.append(dict(sig=dict(level="api", layout=by_groups, what="raised", no_group_rows=all(k is None for k in keys), exc=type(e).__name__), case=case, observed=repr(e)[:300], expected=str(spec),
                                        what="GroupBy.rolling_* raised"))
             continue
-        got = [None if pd.isna(x) else Fraction(float(x)) for x in out.tolist()]
+        got = [None if pd.isna(x) else to_frac(x) for x in out.tolist()]
         if by_groups:
             exp_rows = [(order[g], idx_labels[i], spec[i]) for g in range(2) for i in range(L) if codes[i] == g]
             exp_rows = [r for r in exp_rows]
